@@ -1,6 +1,7 @@
 """C05 - Responses are accepted only if addressed to this SP and solicited."""
 import ast
 
+from ..match import facts, Q
 from ..srcmodel import attr_chain, call_name, unparse, norm_text, walk_no_nested
 from ..cfg import cfg_of, raised_class
 from ..dataflow import Origins
@@ -43,7 +44,7 @@ def r1_solicitation_gate(run):
     hits = [nd for nd in cfg.by_kind("stmt") if isinstance(nd.ast, ast.Assign)
             and any(attr_chain(t) == "self.came_from" for t in nd.ast.targets)]
     for nd in hits:
-        gs = {(unparse(e), p) for e, p, _ in cfg.guards(nd.id)}
+        gs = facts(cfg, nd.id)
         run.check((known, True) in gs and unparse(nd.ast.value) ==
                   "self.outstanding_queries[self.in_response_to]", "R1",
                   fi.qual + "::came_from", "came_from only from the "
@@ -356,9 +357,9 @@ def r6_recipient(run):
             if attr_chain(c.func) == "subjconf.append"]
     run.floor("R6", "subjconf.append sites", len(apps), 1)
     for nd, c in apps:
-        gs = {(unparse(e), p) for e, p, _ in cfg.guards(nd.id)}
-        ok = ("_recip", True) in gs and \
-            ("self.verify_recipient(_recip)", True) in gs
+        gs = facts(cfg, nd.id)
+        ok = Q("_recip", True) in gs and \
+            Q("self.verify_recipient(_recip)", True) in gs
         run.check(ok, "R6", fi.qual + "::recipient-gate",
                   "append dominated by `_recip and verify_recipient(_recip)`",
                   "confirmation accepted under guards %s (recipient not "
@@ -384,14 +385,14 @@ def r6_recipient(run):
               "raises", fi.loc(), nontrivial=False)
     fv = m.func(AR + "verify_recipient")
     vcfg = cfg_of(fv, m)
-    ok_guards = ({"recipient == _info['entity_id']"},
-                 {"recipient in self.return_addrs"})
+    ok_guards = ({Q("recipient == _info['entity_id']")[0]},
+                 {Q("recipient in self.return_addrs")[0]})
     n = 0
     for r in vcfg.by_kind("return"):
         if is_falsy_const(r.ast.value):
             continue
-        gs = {(unparse(e), p) for e, p, _ in vcfg.guards(r.id)}
-        if ("self.conv_info", False) in gs or ("not self.conv_info", True) in gs:
+        gs = facts(vcfg, r.id)
+        if Q("self.conv_info", False) in gs or Q("not self.conv_info", True) in gs:
             continue
         n += 1
         pos = {g for g, p in gs if p}
